@@ -107,6 +107,9 @@ let () =
          (match Tree.bucket_paths g h with
           | Some (p, f) -> if string_of_n p <> past || string_of_n f <> fut then begin
               mism (Printf.sprintf "node %d bucket paths = %s . %s (impl %s . %s)" k (string_of_n p) (string_of_n f) past fut);
+              if string_of_n p <> past then
+                spec "c10_bucket_recalls_the_first_16_edges" false
+                  (Printf.sprintf "node %d (%d edges deep): its bucket recalls the history %s, the first 16 edges of its history pack to %s" k (Stdlib.List.length h) past (string_of_n p));
               if string_of_n p = past then
                 spec "c10_menu_counts_raises_of_the_current_round" false
                   (Printf.sprintf "node %d (%d edges deep): its bucket offers the menu %s; with the raises of the current betting round counted the abstract game offers %s" k (Stdlib.List.length h) fut (string_of_n f))
